@@ -622,7 +622,7 @@ fn compile_unit_case(
         expr: Box::new(bvar.to_core()),
         arms: vec![core::Arm {
             lhs: core::eunit(),
-            body: compile_rows(genv, gensym, diagnostics, new_rows, &bvar.ty, match_range),
+            body: compile_rows(genv, gensym, diagnostics, new_rows, &body_ty, match_range),
         }],
         default: None,
         ty: body_ty,
@@ -663,11 +663,11 @@ fn compile_bool_case(
         arms: vec![
             core::Arm {
                 lhs: core::ebool(true),
-                body: compile_rows(genv, gensym, diagnostics, true_rows, &bvar.ty, match_range),
+                body: compile_rows(genv, gensym, diagnostics, true_rows, &body_ty, match_range),
             },
             core::Arm {
                 lhs: core::ebool(false),
-                body: compile_rows(genv, gensym, diagnostics, false_rows, &bvar.ty, match_range),
+                body: compile_rows(genv, gensym, diagnostics, false_rows, &body_ty, match_range),
             },
         ],
         default: None,
